@@ -199,7 +199,9 @@ theorem runX_inv (P : XState → List Event → Prop) (x : XState) (h0 : P x [])
 
 /-! ## The ghost `closed` -/
 
-/-- once a purge has succeeded, every `Mint` / `MintTo` / `MintFor` fails -/
+/-- once a purge has succeeded, every `Mint` / `MintTo` / `MintFor` fails — IN THE MODEL: this restates the first line of
+`stepX` (the ghost `closed`). That a successful Purge is final on the real minters is validated by the harness only
+(claims note (b): purge-then-mint directed cases + monitor). -/
 theorem C03_closed_step (x : XState) (op : XOp) (hc : x.closed = true) (hm : op.mints = true) :
     stepX x op = .error .soldOut := by
   unfold stepX; simp [hc, hm]
@@ -341,7 +343,8 @@ theorem C03_public_total_const (x0 : XState) (h0 : Fresh x0.base) (hc : x0.close
 
 /-- **Clause 2 at full strength**, non-tiered whitelists (plain / flex / Merkle), every minter incl. the flex ones whose
 `Purge` clears `WHITELIST_MINTER_ADDRS`: if `L` bounds the entitlements in force at `a`'s whitelist mints, `a` completed at
-most `L` whitelist mints in the whole trace. -/
+most `L` whitelist mints in the whole trace. (Like `C03_public_total` this uses the ghost `closed`: nothing mints after a
+successful purge — a property of the model's `stepX`, validated on the real minters by the harness only.) -/
 theorem C03_wl_total (x0 : XState) (h0 : Fresh x0.base) (hc : x0.closed = false) (a : Addr) (ops : List XOp) (L : Nat)
     (hL : ∀ e ∈ (runX x0 ops).2, wlMintBy a 0 e = true → ∃ B, entitlementOf e = some B ∧ B ≤ L) :
     (runX x0 ops).2.countP (wlMintBy a 0) ≤ L :=
@@ -471,8 +474,9 @@ theorem C03_frame_mint (x x' : XState) (a : Addr) (sb : List Nat) (f : Fields) (
       intro k
       by_cases hk : k = sid <;> simp [upd2, upd, hk, hb]
 
-/-- an airdrop only touches the ADMIN's public counter; `UpdatePerAddressLimit`, `SetWhitelist`, clock steps,
-whitelist-side edits and every other message leave every counter alone -/
+/-- every operation other than a mint (`hm`) and a Purge (`hp`): an airdrop only touches the ADMIN's public counter (hence
+`b ≠ admin` for `pub`); `UpdatePerAddressLimit`, `SetWhitelist`, clock steps, whitelist-side edits, governance and every
+other message leave every counter alone. Purge is NOT covered: it clears `pub` (and `wlc` on flex minters) for everyone. -/
 theorem C03_frame_other (x x' : XState) (op : XOp) (e : Event) (h : stepX x op = .ok (x', e))
     (hm : ∀ a sb f o st pre, op ≠ .mint a sb f o st pre) (hp : op.isPurge = false) (b : Addr)
     (hb : b ≠ x.base.admin) :
